@@ -31,6 +31,7 @@ type Shared struct {
 	preempt         int
 	poolAdversarial bool
 	lockCheck       bool
+	ignoreAsserts   bool
 	basePreempt     int
 	basePerm        int
 	baseSaved       bool
